@@ -288,7 +288,13 @@ def do_replay(path):
     mod = importlib.import_module(modname)
     body = getattr(mod, obname)
     params = {k: v for k, v in ex.unjson(d.get("params", {})).items() if k != "_ctx"}
-    ok, obs, X = ex.run_native(body, params, ex.unjson(d["assignment"]))
+    try:
+        ok, obs, X = ex.run_native_timed(body, params, ex.unjson(d["assignment"]), 3 * ex.NATIVE_HANG_S)
+    except ex.NativeTimeout:
+        ok, obs = False, {"non_termination": True, "native_run_exceeded_s": 3 * ex.NATIVE_HANG_S}
+    except Exception as e:
+        # the recorded violation was an exception the harness does not expect
+        ok, obs = False, {"unexpected_exception": type(e).__name__, "msg": str(e)[:200]}
     print(json.dumps({"ok": ok, "obs": ex.jsonable(obs)}, indent=1, default=repr))
     if ok is False:
         print(f"VIOLATION property={d['property']} replay={path}")
